@@ -26,7 +26,7 @@ func c01Roots(c *core.Ctx) []*ssa.Function {
 		"chain/types.Transactions.MerkleRootSha", "chain/types.ChangeLogSlice.MerkleRootSha", "chain/types.DeputyNodes.MerkleRootSha",
 		"chain/types.Profile.EncodeRLP", "chain/types.ChangeLog.EncodeRLP", "chain/types.Header.EncodeRLP",
 	} {
-		roots = append(roots, c.Fn(s))
+		roots = append(roots, c.FnOrCaller(s))
 	}
 	return roots
 }
